@@ -488,16 +488,6 @@ Qed.
 Lemma in_firstn {A} n : forall (l : list A) x, In x (firstn n l) -> In x l.
 Proof. induction n as [|n IH]; intros [|y l] x; cbn; try tauto. intros [H|H]; auto. Qed.
 
-(* caller-visible ids are allocated *)
-Definition wf (s : state) : Prop := forall i, In i (visible s) -> (i < length (hp s))%nat.
-(* a cache entry holds exactly the coordinate vectors of its key, in buffers the caller cannot reach *)
-Definition cell_is (s : state) (a : aid) (v : arrv) : Prop :=
-  hget (hp s) a = Some (mkcell v false) /\ ~ In a (visible s).
-Definition centry_ok (s : state) (e : key * cent) : Prop :=
-  let '(k, (a, b, c, d)) := e in let '(cR, cS, cU, cV) := coords k in
-  cell_is s a cR /\ cell_is s b cS /\ cell_is s c cU /\ cell_is s d cV.
-Definition cache_ok (s : state) : Prop := forall e, In e (cache s) -> centry_ok s e.
-Definition inv (s : state) : Prop := wf s /\ cache_ok s.
 
 Lemma inv_init : inv init.
 Proof. split; [intros i []|intros e []]. Qed.
@@ -637,12 +627,7 @@ Proof.
   destruct (cache_phase s o) as [s1 cvs]. cbn [fst] in *. apply main_inv; auto.
 Qed.
 
-(* states reachable by any history of public calls *)
-Inductive reachable : state -> Prop :=
-| reach_init : reachable init
-| reach_step s o : reachable s -> reachable (fst (step K s o)).
-
-Lemma reachable_inv s : reachable s -> inv s.
+Lemma reachable_inv s : reachable K s -> inv s.
 Proof. induction 1; [apply inv_init|apply step_inv; auto]. Qed.
 
 (* ---- frame ---- *)
@@ -766,8 +751,6 @@ Proof.
 Qed.
 
 (* operations without a cache phase run identically whatever the cache and the generator hold *)
-Definition uses_cache (o : op) : bool := match o with ODft2 _ _ _ _ _ | OPropDft _ _ _ => true | _ => false end.
-Definition forget (s : state) (r : Z) : state := mkstate (hp s) (ob s) (env s) [] r.
 Lemma step_forget s o r : uses_global_rng o = false -> uses_cache o = false ->
   hp (fst (step K (forget s r) o)) = hp (fst (step K s o)) /\
   Purity.ob (fst (step K (forget s r) o)) = Purity.ob (fst (step K s o)) /\
@@ -780,9 +763,6 @@ Proof.
 Qed.
 
 (* ---- dft2: the result is a function of the argument alone ---- *)
-Definition dft_spec (fv : arrv) (k : key) (inverse : bool) (params : list Z) : arrv :=
-  kf K 50 ((if inverse then kf K 51 [fv] [] else fv) :: cv_list (coords k)) (params ++ [if inverse then 1 else 0]).
-
 Lemma valof_alloc1 s v : valof (fst (alloc1 s v)) (length (hp s)) = v.
 Proof. unfold valof, hget; cbn. rewrite nth_error_app2 by lia. rewrite Nat.sub_diag. auto. Qed.
 
@@ -790,14 +770,14 @@ Lemma dft2_value s f k out inverse params a :
   inv s -> getarr s f = Some a ->
   let s' := fst (step K s (ODft2 f k out inverse params)) in
   let o := snd (step K s (ODft2 f k out inverse params)) in
-  o_status o = 0 -> exists i, o_res o = VArr i /\ valof s' i = dft_spec (valof s a) k inverse params.
+  o_status o = 0 -> exists i, o_res o = VArr i /\ valof s' i = dft_spec K (valof s a) k inverse params.
 Proof.
   intros I Ea. cbn zeta. unfold step. cbn [cache_phase cache_get_list].
   destruct (cache_get_spec s k I) as (SP & I1 & Ec). destruct (cache_get s k) as [s1 c]. cbn [fst snd] in *. subst c.
   cbn [main hd]. unfold do_dft2. rewrite (same_public_getarr _ _ _ SP), Ea.
   assert (valof s1 a = valof s a) as Va.
   { apply same_public_valof; auto. apply (proj1 I). eapply getarr_visible; eauto. }
-  rewrite Va. fold (dft_spec (valof s a) k inverse params).
+  rewrite Va. fold (dft_spec K (valof s a) k inverse params).
   destruct out as [r|].
   - rewrite (same_public_getarr _ _ _ SP). destruct (getarr s r) as [o|]; [|cbn; discriminate].
     destruct (wr s1 o _) as [s2|] eqn:W; [|cbn; discriminate]. cbn. intros _. exists o. split; auto.
@@ -807,20 +787,7 @@ Proof.
 Qed.
 
 (* every dft2 call of every history started in a valid state returns dft_spec of its current argument *)
-Fixpoint trace (s : state) (ops : list op) : list (state * op * (state * outcome)) :=
-  match ops with
-  | [] => []
-  | o :: r => (s, o, step K s o) :: trace (fst (step K s o)) r
-  end.
-Definition dft_ok (x : state * op * (state * outcome)) : Prop :=
-  let '(pre, o, (post, out)) := x in
-  match o with
-  | ODft2 f k dst inverse params =>
-      forall a, getarr pre f = Some a -> o_status out = 0 ->
-      exists i, o_res out = VArr i /\ valof post i = dft_spec (valof pre a) k inverse params
-  | _ => True
-  end.
-Lemma history_dft ops : forall s, inv s -> Forall dft_ok (trace s ops).
+Lemma history_dft ops : forall s, inv s -> Forall (dft_ok K) (trace K s ops).
 Proof.
   induction ops as [|o r IH]; intros s I; cbn; constructor.
   - unfold dft_ok. destruct (step K s o) as [post out] eqn:E. destruct o; auto.
@@ -848,3 +815,47 @@ Proof.
 Qed.
 
 End Hidden.
+
+(* ------------------------------------------------------------------ statements used by Properties/C10.v *)
+Section Statements.
+Variable K : kernels.
+
+Lemma frame s o :
+  (forall i, In i (o_writes (snd (step K s o))) -> In i (documented s o) \/ (length (hp s) <= i)%nat) /\
+  (forall i, (i < length (hp s))%nat -> ~ In i (documented s o) -> hget (hp (fst (step K s o))) i = hget (hp s) i).
+Proof. pose proof (step_frame K s o) as H. cbn zeta in H. tauto. Qed.
+
+Lemma frame_frozen s o i c :
+  hget (hp s) i = Some c -> cfrozen c = true -> hget (hp (fst (step K s o))) i = Some c.
+Proof. pose proof (step_frame K s o) as H. cbn zeta in H. apply H. Qed.
+
+Lemma frame_objects s o :
+  incl (o_owrites (snd (step K s o))) (odocumented s o) /\
+  (forall j, (j < length (ob s))%nat -> ~ In j (odocumented s o) -> nth_error (ob (fst (step K s o))) j = nth_error (ob s) j).
+Proof. pose proof (step_frame K s o) as H. cbn zeta in H. tauto. Qed.
+
+Lemma registers_append s o : env (fst (step K s o)) = env s ++ [o_res (snd (step K s o))].
+Proof. pose proof (step_frame K s o) as H. cbn zeta in H. tauto. Qed.
+
+Lemma cache_invariant s : reachable K s -> wf s /\ cache_ok s.
+Proof. apply reachable_inv. Qed.
+
+Lemma cache_never_written s o e :
+  inv s -> In e (cache s) ->
+  let '(k, (a, b, c, d)) := e in
+  ~ In a (o_writes (snd (step K s o))) /\ ~ In b (o_writes (snd (step K s o))) /\
+  ~ In c (o_writes (snd (step K s o))) /\ ~ In d (o_writes (snd (step K s o))).
+Proof.
+  intros [W C] He. pose proof (C e He) as Ok. destruct e as [k [[[a b] c] d]]. cbn in Ok.
+  destruct (coords k) as [[[cR cS] cU] cV]. destruct (frame s o) as [Fw _].
+  assert (forall x v, cell_is s x v -> ~ In x (o_writes (snd (step K s o)))) as H.
+  { intros x v [H1 H2] Hw. destruct (Fw x Hw) as [Hd|Hd].
+    - apply H2. eapply documented_visible; eauto.
+    - apply hget_lt in H1. lia. }
+  destruct Ok as (Ha & Hb & Hc & Hd). repeat split; eapply H; eauto.
+Qed.
+
+Lemma history_independent ops s : inv s -> Forall (dft_ok K) (trace K s ops).
+Proof. apply history_dft. Qed.
+
+End Statements.
